@@ -1296,6 +1296,13 @@ def judge_wms_map(ctx, probe, auth, r, ref, calls):
         if lf in oracles:
             m = m & oracles[lf].inside(d_keep)
             gates.append(auth.layer_limit(lf))
+        for j in allowed:
+            if j != lf and j in oracles and ctx.spec['leaves'][j]['kind'] == 'cache_jpeg':
+                # a jpeg-cached layer has no transparency and its compressed colours can fall into another layer's colour
+                # family: where such a layer was clipped away the unrestricted picture says nothing about lf
+                n0 = int(m.sum())
+                m = m & oracles[j].inside(d_keep)
+                run.dc('keep_pixels_where_a_jpeg_layer_was_clipped', n0 - int(m.sum()))
         if go_g is not None:
             m = m & go_g.inside(d_keep)
             gates.append(glimit)
@@ -1317,9 +1324,11 @@ def judge_wms_map(ctx, probe, auth, r, ref, calls):
             viol(ctx, probe, dict(mech0, clause='inside_content_lost', role=role,
                                   alpha='partial' if 0 < rarr[p[1], p[0], 3] < 255 else 'opaque', **gmech(gates, frame)),
                  '%d of %d pixels of layer %s that lie more than %.0f px inside the permitted area (%r) differ from the '
-                 'unrestricted response by more than %d, first at %r: restricted %r unrestricted %r' % (
+                 'unrestricted response by more than %d, first at %r: restricted %r unrestricted %r; bad pixels span columns %d-%d '
+                 'rows %d-%d' % (
                      n, nk, lf, d_keep, [(gg['cls'], gg['form'], gg['srs']) for gg in gates], tol, p, arr[p[1], p[0]].tolist(),
-                     rarr[p[1], p[0]].tolist()))
+                     rarr[p[1], p[0]].tolist(), int(np.where(badm)[1].min()), int(np.where(badm)[1].max()),
+                     int(np.where(badm)[0].min()), int(np.where(badm)[0].max())))
     run.hit('must_keep_pixels', nkeep)
     if len(run.samples) < 2 and (limits or glimit) and nkeep and (nclear + nbg):
         run.sample({'service': 'wms_map', 'url': ctx.url, 'callback_result': probe['auth'], 'status': r.code,
